@@ -449,7 +449,24 @@ func ptrs(v reflect.Value, out map[uintptr]string, who string) {
 
 var holdCheck = hx.NewCheck("held_values_stable", runHold)
 
+// sharedShapes: statements in whose tree one sub-tree is referenced from two places (the first FROM item is
+// copied into the first join's Left; a set operation keeps the WITH clause on its leftmost SELECT, ...):
+// releasing such a tree must still put every node back exactly once
+var sharedShapes = []string{
+	"SELECT * FROM ( SELECT id FROM users ) d JOIN orders o ON d . id = o . id",
+	"SELECT * FROM ( SELECT id FROM users ) d JOIN ( SELECT id FROM orders ) o ON d . id = o . id JOIN t3 ON t3 . a = d . id",
+	"SELECT a FROM ( SELECT b FROM ( SELECT c FROM t1 ) x ) y LEFT JOIN t2 ON TRUE",
+	"WITH c AS ( SELECT 1 AS a ) SELECT a FROM c UNION ALL SELECT a FROM c EXCEPT SELECT 2",
+	"SELECT a FROM t1 , LATERAL ( SELECT b FROM t2 WHERE t2 . a = t1 . a ) l JOIN t3 ON TRUE",
+	"INSERT INTO t1 SELECT * FROM ( SELECT a FROM t2 ) d JOIN t3 ON d . a = t3 . a",
+	"MERGE INTO t1 USING ( SELECT a FROM t2 ) s ON t1 . a = s . a WHEN MATCHED THEN DELETE",
+	"SELECT a FROM t1 WHERE a IN ( SELECT b FROM ( SELECT b FROM t2 ) d JOIN t3 ON TRUE )",
+}
+
 func genHoldSQL(rt *rapid.T) string {
+	if rapid.IntRange(0, 7).Draw(rt, "shared_shape") == 7 {
+		return rapid.SampledFrom(sharedShapes).Draw(rt, "shape")
+	}
 	f := sqlgen.FullFeatures()
 	f.MaxDepth = 2
 	s := sqlgen.SQL(sqlgen.Statement(sqlgen.New(rt, f)).Toks)
